@@ -234,6 +234,39 @@ func editSet(r *rng, docs []Doc, f *Features) []Doc {
 	if f != nil && r.chance(1, 2) {
 		out = append(out, randNetpol(r, f, pick(r, nsNames[:f.NNamespaces]), "npx"))
 	}
+	if f != nil && r.chance(1, 3) {
+		// a bigger step between the two versions: workloads come and go, and a namespace is closed (or opened) as a
+		// whole, so that some workloads keep no connection at all from one version to the next
+		ns := pick(r, nsNames[:f.NNamespaces])
+		for k, n := 0, r.between(1, 3); k < n; k++ {
+			switch r.intn(4) {
+			case 0: // a new workload
+				out = append(out, workloadDoc(r, wl{ns, fmt.Sprintf("wnew%d", k), pick(r, []string{"Deployment", "StatefulSet", "DaemonSet"}), randLabelsF(r, f, 1), randContainerPorts(r)}))
+			case 1: // a workload goes away
+				var ws []int
+				for i, d := range out {
+					if d.Kind != "Pod" && d.Kind != "Namespace" && d.Kind != "Service" && d.Kind != "Ingress" && d.Kind != "Route" && !strings.Contains(d.Kind, "NetworkPolicy") {
+						ws = append(ws, i)
+					}
+				}
+				if len(ws) > 1 {
+					i := pick(r, ws)
+					out = append(out[:i:i], out[i+1:]...)
+				}
+			case 2: // the namespace is closed: nothing in, nothing out
+				out = append(out, Doc{Kind: "NetworkPolicy", NS: ns, Name: "np-closed", Text: "apiVersion: networking.k8s.io/v1\nkind: NetworkPolicy\nmetadata:\n  name: np-closed\n  namespace: " + ns +
+					"\nspec:\n  podSelector: {}\n  policyTypes:\n  - Ingress\n  - Egress\n"})
+			default: // every policy of the namespace is withdrawn
+				var kept []Doc
+				for _, d := range out {
+					if !(d.Kind == "NetworkPolicy" && d.NS == ns) {
+						kept = append(kept, d)
+					}
+				}
+				out = kept
+			}
+		}
+	}
 	return out
 }
 
